@@ -167,6 +167,90 @@ theorem scanInv_step {orig : List BLine} {start : Nat} {cur : BState} {saved : L
     rw [hc, List.getElem?_set_ne (by omega)]
     exact h.rest i (by omega)
 
+/-! ### the lines a container presents to its nested run are the source lines minus a prefix -/
+
+/-- every entry of `b` holds a suffix of the text of the corresponding entry of `a` (same line-feed flag) -/
+def SufLines (a b : List BLine) : Prop :=
+  b.length = a.length ∧ ∀ (i : Nat) (lb : BLine), b[i]? = some lb → ∃ la : BLine, a[i]? = some la ∧ lb.text <:+ la.text ∧ lb.hasLF = la.hasLF
+
+theorem SufLines.refl (a : List BLine) : SufLines a a := ⟨rfl, fun _ lb h => ⟨lb, h, List.suffix_refl _, rfl⟩⟩
+
+theorem SufLines.trans {a b c : List BLine} (h1 : SufLines a b) (h2 : SufLines b c) : SufLines a c := by
+  refine ⟨by rw [h2.1, h1.1], ?_⟩
+  intro i lc hc
+  obtain ⟨lb, hb, s1, f1⟩ := h2.2 i lc hc
+  obtain ⟨la, ha, s2, f2⟩ := h1.2 i lb hb
+  exact ⟨la, ha, List.IsSuffix.trans s1 s2, by rw [f1, f2]⟩
+
+theorem SufLines.set {a b : List BLine} (h : SufLines a b) (i : Nat) (lb l' : BLine) (hb : b[i]? = some lb) (hs : l'.text <:+ lb.text)
+    (hf : l'.hasLF = lb.hasLF) : SufLines a (b.set i l') := by
+  refine ⟨by rw [List.length_set]; exact h.1, ?_⟩
+  intro j lj hj
+  by_cases hij : i = j
+  · subst hij
+    have hi : i < b.length := by
+      rcases Nat.lt_or_ge i b.length with h' | h'
+      · exact h'
+      · rw [List.getElem?_eq_none_iff.mpr h'] at hb; cases hb
+    rw [List.getElem?_set_self hi] at hj
+    cases hj
+    obtain ⟨la, ha, s1, f1⟩ := h.2 i lb hb
+    exact ⟨la, ha, List.IsSuffix.trans hs s1, by rw [hf, f1]⟩
+  · rw [List.getElem?_set_ne hij] at hj
+    exact h.2 j lj hj
+
+theorem quoteStrip_suf (l : BLine) : (quoteStrip l).1.text <:+ l.text ∧ (quoteStrip l).1.hasLF = l.hasLF := by
+  refine ⟨?_, rfl⟩
+  show List.drop _ (List.drop 1 l.body) <:+ l.text
+  exact List.IsSuffix.trans (List.drop_suffix _ _) (List.IsSuffix.trans (List.drop_suffix _ _) (List.drop_suffix _ _))
+
+/-- the end-of-quote scan only ever replaces an entry by one holding a suffix of its text -/
+theorem quoteScan_suf (terms : List BRule) (hin : ∀ t ∈ terms, SilentInert t) (endLine : Nat) :
+    ∀ (fuel next : Nat) (le : Bool) (cur : BState) (saved : List BLine) (nx : Nat) (s2 : BState) (sv : List BLine),
+      endLine < cur.lines.length →
+      quoteScan terms endLine fuel next le cur saved = .ok (nx, s2, sv) → SufLines cur.lines s2.lines := by
+  intro fuel
+  induction fuel with
+  | zero => intro next le cur saved nx s2 sv _ h; simp [quoteScan] at h
+  | succ n ih =>
+    intro next le cur saved nx s2 sv hlen h
+    simp only [quoteScan] at h
+    have stop : ∀ (x : BState) (y : List BLine), x.lines = cur.lines →
+        (Except.ok (next, x, y) : Except PyErr (Nat × BState × List BLine)) = .ok (nx, s2, sv) → SufLines cur.lines s2.lines := by
+      intro x y hx he
+      simp only [Except.ok.injEq, Prod.mk.injEq] at he
+      obtain ⟨_, e2, _⟩ := he; subst e2; rw [hx]; exact SufLines.refl _
+    split at h
+    · rename_i hlt
+      obtain ⟨l, hg, hl⟩ := getL_ok cur next (by omega)
+      simp only [hg] at h
+      split at h
+      · exact stop _ _ rfl h
+      · split at h
+        · have h1 := ih _ _ _ _ _ _ _ (by simp only [setLine_lines, List.length_set]; exact hlen) h
+          have h0 : SufLines cur.lines (cur.setLine next (quoteStrip l).1).lines :=
+            (SufLines.refl cur.lines).set next l _ hl (quoteStrip_suf l).1 (quoteStrip_suf l).2
+          exact h0.trans h1
+        · split at h
+          · exact stop _ _ rfl h
+          · obtain ⟨b, hb⟩ := runTerminators_inert terms hin cur next endLine (by omega)
+            simp only [hb] at h
+            cases b with
+            | true =>
+              simp only at h
+              split at h
+              · simp only [hg, Except.ok.injEq, Prod.mk.injEq] at h
+                obtain ⟨_, e2, _⟩ := h; subst e2
+                exact (SufLines.refl cur.lines).set next l _ hl (List.suffix_refl _) rfl
+              · exact stop { cur with lineMax := next } _ rfl h
+            | false =>
+              simp only [hg] at h
+              have h1 := ih _ _ _ _ _ _ _ (by simp only [setLine_lines, List.length_set]; exact hlen) h
+              have h0 : SufLines cur.lines (cur.setLine next { l with sCount := -1 }).lines :=
+                (SufLines.refl cur.lines).set next l _ hl (List.suffix_refl _) rfl
+              exact h0.trans h1
+    · exact stop _ _ rfl h
+
 /-- the quote rule in silent mode only looks at the line -/
 theorem quote_inert (codeOn : Bool) (terms inner : List BRule) (mn : Int) : SilentInert (ruleBlockquote codeOn terms inner mn) := by
   intro s line endLine hl
@@ -277,7 +361,7 @@ def QuoteRun (mn : Int) (d : Nat) (inner : List BRule) (s : BState) (line : Nat)
     Lv mn d (({ s2 with blkIndent := 0 }).pushFull "blockquote_open" "blockquote" 1 (some (line, 0)) none "" ">" "") next ∧
     blockTokenize inner mn (({ s2 with blkIndent := 0 }).pushFull "blockquote_open" "blockquote" 1 (some (line, 0)) none "" ">" "") line next = .ok s4 ∧
     s'.tokens = ((s4.pushFull "blockquote_close" "blockquote" (-1) none none "" ">" "").tokens).modify s.tokens.length
-      (fun t => t.setMap (some (line, s4.line))) ∧ s'.line = s4.line
+      (fun t => t.setMap (some (line, s4.line))) ∧ s'.line = s4.line ∧ SufLines s.lines s2.lines
 
 theorem quote_shape (mn : Int) (d : Nat) (codeOn : Bool) (terms : List BRule) (hin : ∀ t ∈ terms, SilentInert t)
     (inner : List BRule) (hinner : InnerOK mn d inner) (s : BState) (line endLine : Nat)
@@ -329,7 +413,7 @@ theorem quote_shape (mn : Int) (d : Nat) (codeOn : Bool) (terms : List BRule) (h
         have : s2.level = s.level := hv2
         simp only []
         omega
-      refine ⟨_, rfl, ?_, ?_, ?_, ⟨next, s2, s4, ht2, hv2, by simpa using hlm3.1, by simpa using hlm3.2.1, hLv3, hrun, ?_, ?_⟩⟩
+      refine ⟨_, rfl, ?_, ?_, ?_, ⟨next, s2, s4, ht2, hv2, by simpa using hlm3.1, by simpa using hlm3.2.1, hLv3, hrun, ?_, ?_, ?_⟩⟩
       · -- frame
         refine ⟨⟨?_, ?_⟩, ?_, ?_, ?_⟩
         · show (restoreLines _ line saved).lines = s.lines
@@ -385,6 +469,10 @@ theorem quote_shape (mn : Int) (d : Nat) (codeOn : Bool) (terms : List BRule) (h
       · show (restoreLines _ line saved).line = s4.line
         rw [(restoreLines_fields saved _ line).2.2.2.2.1]
         rfl
+      · have h1 := quoteScan_suf terms hin endLine _ _ _ _ _ _ _ _ (by simp; exact hlenE) hscan
+        have h0 : SufLines s.lines ({ (s.setLine line (quoteStrip l0).1) with parentType := "blockquote" } : BState).lines :=
+          (SufLines.refl s.lines).set line l0 _ hl0 (quoteStrip_suf l0).1 (quoteStrip_suf l0).2
+        exact h0.trans h1
 
 theorem ruleOK_blockquote (mn : Int) (d : Nat) (codeOn : Bool) (terms : List BRule) (hin : ∀ t ∈ terms, SilentInert t)
     (inner : List BRule) (hinner : InnerOK mn d inner) : RuleOK (Lv mn (d + 1)) (ruleBlockquote codeOn terms inner mn) := by
